@@ -50,13 +50,19 @@ func vSlotJSON(kp int, s string) string {
 	case "patternProperties":
 		return `,"patternProperties":{"^p":` + s + `}`
 	case "dependencies":
-		return `,"dependencies":{"d":` + s + `}`
+		return `,"dependencies":{"aa":["description"],"d":` + s + `,"zz":["description"]}`
 	}
 	return `,"definitions":{"n":` + s + `}`
 }
 
 func vDefJSON(label string, kp int, slot string) string {
-	return `{"description":"` + label + `","x-leaf":{"description":"leaf of ` + label + `"}` + vSlotJSON(kp, slot) + `}`
+	// every definition also carries a property dependency (an array of names, not a schema): the keyword
+	// loop must step over it and go on with the keywords that follow
+	dep := `,"dependencies":{"zz":["description"]}`
+	if vKwPos[kp] == "dependencies" && slot != "" {
+		dep = ""
+	}
+	return `{"description":"` + label + `","x-leaf":{"description":"leaf of ` + label + `"}` + dep + vSlotJSON(kp, slot) + `}`
 }
 
 func vRefJSON(ref string) string {
@@ -253,13 +259,20 @@ func vWorldImports(which int) *vWorld {
 		}
 		return alts[vChoose(len(alts), tag)]
 	}
-	ps, rs := which == 0, which == 1
+	ps, rs := which == 0 || which == 3, which == 1
+	cyc := which == 3                            // mode 3: the parameter chain may end in the second document on a parameter whose schema lies on a cycle there
 	pi, ri := ps || which == 2, rs || which == 2 // mode 2: only the members of the imported path item vary, all at once
 	p0 := alt(ps, "P0", `{"name":"p0","in":"query","type":"string"}`, `{"$ref":"sub/a.json#/parameters/Q1"}`)
-	q1 := alt(ps, "Q1", `{"name":"q1","in":"header","type":"string"}`, `{"$ref":"deep/b.json#/parameters/D1"}`)
-	d1 := alt(ps, "D1", `{"name":"d1","in":"body","schema":{"$ref":"#/definitions/E"}}`, `{"$ref":"../../../x/c.json#/parameters/F1"}`)
-	pl := alt(pi, "PL", `{"$ref":"deep/b.json#/parameters/D1"}`, `{"$ref":"#/parameters/Q2"}`, `{"name":"pl","in":"body","schema":{"$ref":"deep/b.json#/definitions/E"}}`)
-	op := alt(pi, "OP", `{"$ref":"#/parameters/Q1"}`, `{"name":"op","in":"body","schema":{"$ref":"#/definitions/C"}}`, `{"$ref":"../root.json#/parameters/D1"}`)
+	q1alts := []string{`{"name":"q1","in":"header","type":"string"}`, `{"$ref":"deep/b.json#/parameters/D1"}`}
+	subC := `{"description":"sub-C"}`
+	if cyc {
+		q1alts = []string{`{"$ref":"#/parameters/Q2"}`, `{"$ref":"deep/b.json#/parameters/D1"}`}
+		subC = `{"description":"sub-C","properties":{"again":{"$ref":"#/definitions/C"}}}`
+	}
+	q1 := alt(ps, "Q1", q1alts...)
+	d1 := alt(ps && !cyc, "D1", `{"name":"d1","in":"body","schema":{"$ref":"#/definitions/E"}}`, `{"$ref":"../../../x/c.json#/parameters/F1"}`)
+	pl := alt(pi && !cyc, "PL", `{"$ref":"deep/b.json#/parameters/D1"}`, `{"$ref":"#/parameters/Q2"}`, `{"name":"pl","in":"body","schema":{"$ref":"deep/b.json#/definitions/E"}}`)
+	op := alt(pi && !cyc, "OP", `{"$ref":"#/parameters/Q1"}`, `{"name":"op","in":"body","schema":{"$ref":"#/definitions/C"}}`, `{"$ref":"../root.json#/parameters/D1"}`)
 	r0 := alt(rs, "R0", `{"description":"r0"}`, `{"$ref":"sub/a.json#/responses/S1"}`)
 	s1 := alt(rs, "S1", `{"description":"s1"}`, `{"$ref":"deep/b.json#/responses/T1"}`)
 	t1 := alt(rs, "T1", `{"description":"t1","schema":{"$ref":"#/definitions/C"}}`, `{"$ref":"../../../x/c.json#/responses/F1"}`)
@@ -271,7 +284,7 @@ func vWorldImports(which int) *vWorld {
 		`"definitions":{"C":{"description":"root-C"},"E":{"description":"root-E"}},` +
 		`"parameters":{"P0":` + p0 + `,"D1":{"name":"root-d1","in":"query","type":"string"},"Q2":{"name":"root-q2","in":"query","type":"integer"}},` +
 		`"responses":{"R0":` + r0 + `,"T1":{"description":"root-t1"},"S2":{"description":"root-s2"}}}`
-	w.docs[vUSub] = `{"definitions":{"C":{"description":"sub-C"},"E":{"description":"sub-E"}},` +
+	w.docs[vUSub] = `{"definitions":{"C":` + subC + `,"E":{"description":"sub-E"}},` +
 		`"parameters":{"Q1":` + q1 + `,"Q2":{"name":"q2","in":"body","schema":{"$ref":"#/definitions/C"}},"D1":{"name":"sub-d1","in":"query","type":"string"}},` +
 		`"responses":{"S1":` + s1 + `,"S2":{"description":"s2","schema":{"$ref":"deep/b.json#/definitions/E"}},"T1":{"description":"sub-t1"}},` +
 		`"x-items":{"I1":{"parameters":[` + pl + `],"get":{"parameters":[` + op + `],"responses":{"200":` + r200 + `,"default":` + rdef + `}}}}}`
@@ -351,5 +364,17 @@ func vWorldLocalDoc() *vWorld {
 	w.docs[vURoot] = `{"swagger":"2.0","info":{"title":"t","version":"1"},` +
 		`"paths":{"/p":{"get":{"parameters":[{"name":"b","in":"body","schema":{"$ref":"#/definitions/A"}}],"responses":{"200":{"description":"ok","schema":{"$ref":"#/definitions/B"}}}}}},` +
 		`"definitions":{"A":` + vDefJSON("la", kp, vRefJSON(a)) + `,"B":` + vDefJSON("lb", kp, vRefJSON(b)) + `}}`
+	return w
+}
+
+// ---- family 6: every keyword position, one document: A holds nothing, B, or itself at the position ----
+
+func vWorldKeywords() *vWorld {
+	vUseURLSet(0)
+	kp := vChoose(len(vKwPos), "kwpos.all")
+	a := vPickRef("A", vURoot, []vTarget{{doc: vURoot, frag: "/definitions/B", single: true}, {doc: vURoot, frag: "/definitions/A", single: true}})
+	w := &vWorld{root: vURoot, docs: map[string]string{}}
+	w.docs[vURoot] = `{"swagger":"2.0","info":{"title":"t","version":"1"},"paths":{},` +
+		`"definitions":{"A":` + vDefJSON("la", kp, vRefJSON(a)) + `,"B":{"description":"lb"}}}`
 	return w
 }
